@@ -7,4 +7,5 @@ mkdir -p target/logs target/shim target/scratch evidence replays
 gcc -O2 -Wall -Wno-nonnull-compare -fno-delete-null-pointer-checks -fPIC -shared -o target/shim/libverifsim.so sim/shim/libverifsim.c -ldl
 (cd sim && cargo build --release --offline)
 (cd /repo && cargo build --release --offline -p zeep --target-dir /verif/target/repo)
+sim/net/run.sh build-only
 echo "setup ok"
